@@ -33,6 +33,8 @@ type c17Spec struct {
 	extra     map[string][]string      // extra request values per request field (short name)
 	pattern   bool                     // role manager with a (domain) matching function
 	generated bool
+	preAsk    [][]interface{} // requests asked before a late registration of the matching functions
+	buildNo   int
 
 	// derived from the model
 	ef      string // ao do ad pr sp un
@@ -124,6 +126,15 @@ func (s *c17Spec) build(p [][]string, g map[string][][]string, effect string) (*
 	}
 	e.EnableAutoSave(false)
 	if s.setup != nil {
+		// every second build registers the matching functions only AFTER every request has been
+		// asked once (compiled matcher and g() memo warm): the registration itself must make the
+		// decisions those of the pattern role manager
+		s.buildNo++
+		if s.buildNo%2 == 0 {
+			for _, rq := range s.preAsk {
+				_, _ = e.Enforce(rq...)
+			}
+		}
 		s.setup(e)
 	}
 	return e, nil
